@@ -816,6 +816,9 @@ def case_tightft(rng, k, variant):
     return c
 
 
+_extclip_n = [0]
+
+
 def case_extclip(rng, k, variant):
     """the extended clipboard (negative-length ClientCutText): capability exchange with arbitrary limits, then
     provide messages whose inflated size field sits on and beyond the 1 MiB limit (incl. zlib bombs that really
@@ -845,9 +848,17 @@ def case_extclip(rng, k, variant):
         c.hints.append("zhint %d %d %d steps:%s" % (fl, len(pay), bsum(pay), ",".join(steps[:nbits])))
         return ext(be32(fl) + pay)
     msgs = [m_encodings([ENC[rng.choice(MODEL_ENCS)], ENC["extclip"]])]
-    for _ in range(rng.choice([2, 4, 7])):
-        kind = rng.choice(["caps", "caps", "good", "good", "edge", "big", "bomb", "req", "plain", "withdraw", "multi", "short",
-                           "msgedge", "incompr"])
+    # messages of 1 MiB are expensive for the extracted model (about 2 s each): the limits of the message length are
+    # visited once each in the first cases of every run and rarely afterwards
+    nth = _extclip_n[0]
+    _extclip_n[0] += 1
+    forced = {0: ("msgedge", 0), 1: ("msgedge", 1), 2: ("msgedge", -1023), 3: ("incompr", 0)}.get(nth)
+    for j in range(rng.choice([2, 4, 7])):
+        kind = rng.choice(["caps", "caps", "good", "good", "edge", "big", "bomb", "req", "plain", "withdraw", "multi", "short"])
+        if rng.random() < 0.03:
+            kind = rng.choice(["msgedge", "incompr"])
+        if forced and j == 0:
+            kind = forced[0]
         if kind == "caps":
             fl = (1 << 24) | rng.choice([1, 1, 1 | 2, 1 | 2 | 4 | 8 | 16, 2, 0])
             n = bin(fl & 0xFFFF).count("1")
@@ -864,6 +875,8 @@ def case_extclip(rng, k, variant):
             # ignores what follows its flags, so its length can be chosen freely
             M = gen_const("c04_ext_cut_msg_limit", SPEC_MSG_LIMIT)
             L = rng.choice([(1 << 20) + 1, (1 << 20) + 2, (1 << 20) + rng.randint(3, 1023), M - 1, M, M, M + 1, M + 1])
+            if forced and j == 0:
+                L = M + forced[1]                        # M (largest accepted), M + 1 (refused), 2^20 + 1 (just above the classic limit)
             if L <= M:
                 msgs.append(ext(be32((1 << 25) | rng.choice([0, 1])) + bytes([rng.randrange(256)]) * (L - 4)))
             else:                                        # refused before anything is read
@@ -1001,6 +1014,7 @@ def gen_cases(ctx, variant):
     SANDBOX_LEN = len(os.path.realpath(sandbox(ctx)))
     rng = ctx.rng
     quick = ctx.quick()
+    _extclip_n[0] = 0
     cases = corpus_cases(0, variant)
     k = len(cases)
     plan = [(case_session, 500 if quick else 6000), (case_truncated, 220 if quick else 3000),
